@@ -77,10 +77,6 @@ def sendObs : List Obs → List (Nat × FStatus)
   | .fs i st :: r => (i, st) :: sendObs r
   | _ :: r => sendObs r
 
-/-- the status lets the loop go on to the next filter (documented: Continue; any unknown status behaves the same) -/
-def continues : FStatus → Bool
-  | .Continue => true | .unknown => true | _ => false
-
 /-- a re-run request the proxy honours: re-match only from an AfterRoute filter, re-choose only from an AfterChooseHost filter -/
 def accepted (p : RPhase) (st : FStatus) : Bool :=
   (p == .AfterRoute && st == .ReMatchRoute) || (p == .AfterChooseHost && st == .ReChooseHost)
@@ -112,14 +108,6 @@ def denied (l : List Obs) : Bool := (recvObs l).any (fun (_, _, v) => v.isDeny)
 
 def forwarded (l : List Obs) : Bool := l.any (fun o => o == .un || o == .uf)
 
-/-- the sender invocations a single response makes: filters 0,1,2,… in order, up to and including the first one that
-does not continue -/
-def expectedSend : List SFilter → Nat → List (Nat × FStatus)
-  | [], _ => []
-  | f :: r, i =>
-    let st := f.statusAt 0
-    (i, st) :: (if continues st then expectedSend r (i + 1) else [])
-
 def count (p : Obs → Bool) (l : List Obs) : Nat := (l.filter p).length
 
 def isDh : Obs → Bool | .dh _ _ => true | _ => false
@@ -136,19 +124,9 @@ def sendBeforeReply : List Obs → Bool
 /-- each sender filter once per response: the sender invocations are either absent (no response was produced) or exactly
 one in-order run; they precede the response; the downstream sender sees at most one headers/data/trailers call -/
 def sendOK (c : Cfg) (l : List Obs) : Bool :=
-  ((sendObs l).isEmpty || sendObs l == expectedSend c.send 0) &&
+  ((sendObs l).isEmpty || sendObs l == sendRun c.send 0) &&
   sendBeforeReply l && count isDh l ≤ 1 && count isDd l ≤ 1 && count isDt l ≤ 1 &&
-  (count isDh l == 0 || (sendObs l == expectedSend c.send 0))
-
-/-- the reply a filter asked for: fold of the handler calls in invocation order (pending response, status code) -/
-def replyOf : List (Nat × RPhase × Verdict) → Option Resp × Option Nat → Option Resp × Option Nat
-  | [], acc => acc
-  | (_, _, v) :: r, (resp, code) =>
-    replyOf r (match v.act with
-      | .none => (resp, code)
-      | .hijack k b => (some ⟨b, false⟩, some k)
-      | .direct => (some ⟨false, false⟩, code)
-      | .terminate k => if resp.isSome then (resp, code) else (some ⟨false, false⟩, some k))
+  (count isDh l == 0 || (sendObs l == sendRun c.send 0))
 
 def answered (l : List Obs) : Bool := (recvObs l).any (fun (_, _, v) => v.act.answers)
 
@@ -168,10 +146,10 @@ def replyObs : List Obs → List Obs
 sender receives exactly the answer's headers (+ body), after one full run of the sender filters -/
 def singleReplyOK (c : Cfg) (l : List Obs) : Bool :=
   if answered l && !terminated l && !c.env.oneway then
-    match replyOf (recvObs l) (none, none) with
+    match replyOf ((recvObs l).map (fun x => x.2.2)) (none, none) with
     | (some r, code) =>
       replyObs l == (.dh code (!r.data) :: (if r.data then [.dd true] else [])) &&
-      sendObs l == expectedSend c.send 0
+      sendObs l == sendRun c.send 0
     | _ => false
   else true
 
